@@ -43,9 +43,13 @@ def custom_matrix(n, idx):
     CX = np.eye(4, dtype=complex)[[0, 1, 3, 2]]
     if n == 1:
         return [H @ T, S @ H @ T, T @ H @ S @ H][idx % 3]
+    SWAP = np.eye(4, dtype=complex)[[0, 2, 1, 3]]
     return [np.kron(H, S) @ CX @ np.kron(T, H),
             CX @ np.kron(S @ H, T) @ np.kron(np.eye(2), H @ T),
-            np.kron(T @ H, X @ S) @ CX @ np.kron(H, H @ S)][idx % 3]
+            np.kron(T @ H, X @ S) @ CX @ np.kron(H, H @ S),
+            # not Hermitian, but equal to their adjoint with the qubits
+            # reversed (G = R G^dagger R)
+            np.kron(S, S.conj().T), SWAP @ CX][idx % 5]
 
 
 def num(x):
